@@ -131,6 +131,37 @@ Proof.
 Qed.
 Print Assumptions C34_complete_refuted.
 
+(* Honest run of the inline CDN path (the functional half: a completed download of an honest CDN IS the
+   file): the answers to the steps of the request plan -- the file's bytes for each step -- concatenate to
+   the file's bytes for the whole chunk (C34_plan + C34_plan_assembles); CTR decryption undoes the CDN's
+   encryption with the documented counters (C34_ctr + C34_ctr_involutive, for any 16-byte block function);
+   and verifyChunk accepts the genuine chunk -- cut at the end of the file -- and returns it unchanged,
+   for every offset inside the file, every limit and every layout of hash windows that covers the file
+   (C34_honest_accepted).  Not modelled: the loop of cdn.Chunk that walks the plan, rejects over-long
+   answers (fix 833ec1650) and stops at the first short one; it is exercised by the "none" attack runs. *)
+Theorem C34_plan_assembles :
+  forall file steps cur, 0 <= cur -> steps_ok cur steps ->
+    concat (map (fun s => slice file (fst s) (fst s + snd s)) steps) = slice file cur (cur + steps_total steps).
+Proof. exact plan_assembles. Qed.
+Print Assumptions C34_plan_assembles.
+
+Theorem C34_ctr_involutive :
+  forall (E : Z -> list Z) ivz offset src, (forall z, length (E z) = 16%nat) ->
+    decrypt E ivz offset (decrypt E ivz offset src) = src.
+Proof. exact decrypt_involutive. Qed.
+Print Assumptions C34_ctr_involutive.
+
+Theorem C34_honest_accepted :
+  forall (sha : list Z -> list Z) hash_for fetch (file : list Z),
+    (forall o, 0 <= o < zlen file ->
+       exists w, hash_for o = Some w /\ 0 <= w_off w <= o /\ o < w_off w + w_limit w /\ w_hash w = sha (gen file w)) ->
+    (forall w, fetch w = gen file w) ->
+    forall offset lim, 0 <= offset < zlen file -> 0 < lim ->
+      let data := slice file offset (Z.min (offset + lim) (zlen file)) in
+      verify_chunk sha hash_for fetch offset lim data = Some data.
+Proof. exact verify_chunk_honest. Qed.
+Print Assumptions C34_honest_accepted.
+
 (* The verifier's hash queue (WithVerify(true)): against a server that hands out the consecutive
    hash windows W of a file in non-empty batches (and nothing new at the end), a verifier seeded
    with the first k windows serves EVERY window of W exactly once, in offset order, without
